@@ -97,6 +97,35 @@ example : NameOk [45] ∧ Bytes [0, 255, 10] ∧ ([[0], [255], [10]] : List (Lis
   refine ⟨⟨by decide, by intro c hc; simp at hc; omega, by decide⟩, by intro b hb; simp at hb; omega,
     by decide, by decide, by decide⟩
 
+/-- **Truncated input is reported** (the repaired `finish:` of `uudecode_filter_read`,
+C08's former finding C08-uu-truncated-clean-eof): take what the write filter
+produces, keep the `begin` line and the first `j ≥ 1` encoded lines and drop
+everything after them (the rest of the body and the `end` / `====` trailer).
+For every sequence of read windows the consumer gets exactly the bytes of the
+lines that are there and then a fatal error — never a clean end of data after a
+proper prefix.  (A cut inside a line fails earlier, with "Missing format data";
+that case is exercised by the C08 engine, not covered by this theorem.) -/
+theorem uu_truncated_is_reported (mode : Nat) (name x : List Nat) (j first : Nat) (orc : List Nat)
+    (hb : Bytes x) (hn : NameOk name) (hj : 0 < j)
+    (hjl : j ≤ (pieces LA.Uu.codec.lbytes LA.Uu.codec.lpos x).length)
+    (hfirst : (header LA.Uu.codec mode name).length ≤ first) :
+    decode first orc (header LA.Uu.codec mode name ++
+        (((pieces LA.Uu.codec.lbytes LA.Uu.codec.lpos x).take j).map LA.Uu.encLine).flatten) =
+      .fatal ((pieces LA.Uu.codec.lbytes LA.Uu.codec.lpos x).take j).flatten :=
+  stream_truncated (uuSpec mode name hn) x hb j hj hjl first orc hfirst
+
+theorem b64_truncated_is_reported (mode : Nat) (name x : List Nat) (j first : Nat) (orc : List Nat)
+    (hb : Bytes x) (hn : NameOk name) (hj : 0 < j)
+    (hjl : j ≤ (pieces LA.B64.codec.lbytes LA.B64.codec.lpos x).length)
+    (hfirst : (header LA.B64.codec mode name).length ≤ first) :
+    decode first orc (header LA.B64.codec mode name ++
+        (((pieces LA.B64.codec.lbytes LA.B64.codec.lpos x).take j).map LA.B64.encLine).flatten) =
+      .fatal ((pieces LA.B64.codec.lbytes LA.B64.codec.lpos x).take j).flatten :=
+  stream_truncated (b64Spec mode name hn) x hb j hj hjl first orc hfirst
+
+/-- Non-vacuity: 100 bytes are three uuencode lines; keeping two of them satisfies the hypotheses. -/
+example : 0 < 2 ∧ 2 ≤ (100 + 44) / 45 := by decide
+
 /-- **The read bidder recognises what the two write filters produce** (so the
 reader inserts the uudecode filter), for every chunking of the writes and every
 behaviour of the read-ahead window while bidding: `extra` scripts how many bytes
